@@ -361,8 +361,14 @@ func runC07(r *Run, verifDir string) {
 			}
 		}
 	}
+	generic := false
+	if !capOK && rs != nil && rs.High != nil {
+		generic = proveCap(rs.X, rs.High, rs.Block(), nil, 0)
+	}
 	if capOK {
 		r.OK("C07.S6", "ttlv.Stream.Recv/cap", readCall.Pos(), "buf = need > cap(buf) ? Grow(buf, need-cap(buf)) : buf, hence cap(buf) >= need at buf[read:need]")
+	} else if generic {
+		r.OK("C07.S6", "ttlv.Stream.Recv/cap", readCall.Pos(), "cap(buf) >= need at buf[read:need] on every path: by the guard (need <= len/cap(buf)) or by the growth (Grow/append/make by at least need-len(buf))")
 	} else {
 		r.Bad("C07.S6", "ttlv.Stream.Recv/cap", readCall.Pos(), "buf[read:need] is not preceded by the growth idiom `if need > cap(buf) { buf = slices.Grow(buf, need-cap(buf)) }`: either cap(buf) < need at the slice (bounds panic on a message larger than the buffer) or Grow is called with a negative amount (panic) — in the connection's read loop, which has no recover")
 	}
@@ -388,4 +394,82 @@ func runC07(r *Run, verifDir string) {
 	}
 	// (c) buf[:read+n] and buf[:need] within cap: read+n <= need by the io.Reader contract; need <= cap by (a)
 	r.OK("C07.S6", "ttlv.Stream.Recv/prefixes", fn.Pos(), "buf[:read+n] (n <= need-read by the io.Reader contract) and buf[:need] are within cap(buf) >= need")
+}
+
+
+// proveCap: cap(v) >= need holds whenever control is in block blk having arrived through edge conditions extra.
+// Derivation rules: a dominating (or edge) comparison need <= cap(v) / need <= len(v); phi = all edges; v[:h] / v[:] keep
+// the capacity; slices.Grow(b, need-len(b)) and append(b, make([]byte, need-len(b))...) reach need; make([]byte, need[, c>=need]).
+func proveCap(v, need ssa.Value, blk *ssa.BasicBlock, extra []domCond, depth int) bool {
+	if depth > 6 {
+		return false
+	}
+	isLenCapOf := func(x, buf ssa.Value) bool {
+		c, ok := x.(*ssa.Call)
+		if !ok {
+			return false
+		}
+		b, ok := c.Call.Value.(*ssa.Builtin)
+		return ok && (b.Name() == "cap" || b.Name() == "len") && len(c.Call.Args) == 1 && c.Call.Args[0] == buf
+	}
+	conds := append(append([]domCond{}, extra...), dominatingConds(blk)...)
+	for _, dc := range conds {
+		bo, ok := dc.cond.(*ssa.BinOp)
+		if !ok {
+			continue
+		}
+		switch {
+		case bo.Op == token.GTR && !dc.outcome && bo.X == need && isLenCapOf(bo.Y, v),
+			bo.Op == token.LEQ && dc.outcome && bo.X == need && isLenCapOf(bo.Y, v),
+			bo.Op == token.LSS && !dc.outcome && isLenCapOf(bo.X, v) && bo.Y == need,
+			bo.Op == token.GEQ && dc.outcome && isLenCapOf(bo.X, v) && bo.Y == need:
+			return true
+		}
+	}
+	needMinusLen := func(k, b ssa.Value) bool {
+		sub, ok := k.(*ssa.BinOp)
+		if !ok || sub.Op != token.SUB || sub.X != need {
+			return false
+		}
+		c, ok := sub.Y.(*ssa.Call)
+		if !ok {
+			return false
+		}
+		bi, ok := c.Call.Value.(*ssa.Builtin)
+		return ok && bi.Name() == "len" && c.Call.Args[0] == b
+	}
+	switch x := v.(type) {
+	case *ssa.Phi:
+		for i, e := range x.Edges {
+			pr := x.Block().Preds[i]
+			var ex []domCond
+			if cond, isTrue, ok := edgeTaken(pr, x.Block()); ok {
+				ex = append(ex, domCond{cond, isTrue, pr})
+			}
+			if e == ssa.Value(x) {
+				continue
+			}
+			if !proveCap(e, need, pr, ex, depth+1) {
+				return false
+			}
+		}
+		return true
+	case *ssa.Slice:
+		if x.Low == nil && x.Max == nil {
+			return proveCap(x.X, need, blk, extra, depth+1)
+		}
+	case *ssa.MakeSlice:
+		return x.Len == need || x.Cap == need
+	case *ssa.Call:
+		id := callID(&x.Call)
+		if id.pkg == "slices" && id.name == "Grow" && len(x.Call.Args) == 2 {
+			return needMinusLen(x.Call.Args[1], x.Call.Args[0])
+		}
+		if b, ok := x.Call.Value.(*ssa.Builtin); ok && b.Name() == "append" && len(x.Call.Args) == 2 {
+			if mk, ok := x.Call.Args[1].(*ssa.MakeSlice); ok {
+				return needMinusLen(mk.Len, x.Call.Args[0])
+			}
+		}
+	}
+	return false
 }
